@@ -137,6 +137,17 @@ pub fn build_image(case: &Case) -> Result<Image, String> {
     if ch % 4 == 0 {
         ops.push(Op::Put(1000, v(33_000 + (ch >> 8) as u32 % 40_000, false)));
     }
+    // another quarter: a fresh WAL under a large memtable whose first 32 KiB block ends in a 1-6 byte
+    // trailer, with further records (overwrites of keys stored in tables) in the second block
+    if ch % 4 == 1 {
+        ops.push(Op::Reopen(Cfg { memtable: 100_000, file: cfg.file, block: 128, reuse: false }));
+        ops.push(Op::Put(9000, v(30, false)));
+        ops.push(Op::Delete(30000));
+        ops.push(Op::PutTail(1000, 1 + ((ch >> 8) % 6) as u8));
+        ops.push(Op::Put(9000, v(21, false)));
+        ops.push(Op::Batch(vec![(60000, Some(v(35, false))), (45000, None)]));
+        ops.push(Op::Put(1000, v(26, false)));
+    }
     let mut write = |db: &DB, fs: &MemFs, model: &mut Model, items: Items| -> Result<(), String> {
         let mut b = Batch::new();
         for (k, v) in &items {
@@ -175,6 +186,14 @@ pub fn build_image(case: &Case) -> Result<Image, String> {
                 write(d, &fs, &mut model, vec![(key(*s), Some(make_value(counter, *val)))])?;
             }
             Op::Delete(s) => write(d, &fs, &mut model, vec![(key(*s), None)])?,
+            Op::PutTail(s, r) => {
+                let k = key(*s);
+                let path = format!("db/wal/wal-{}.log", d.verif_state().db_wal_number);
+                let size = fs.read_file(&path).map_or(0, |f| f.len() as u64);
+                let len = tail_value_len(size, k.len(), *r).unwrap_or(40);
+                counter += 1;
+                write(d, &fs, &mut model, vec![(k, Some(make_value(counter, Val { len, compressible: false })))])?;
+            }
             Op::Batch(items) => {
                 let mut staged = vec![];
                 for (s, val) in items {
@@ -365,12 +384,31 @@ fn eval_inner(p: &CorruptPoint) -> Result<EvalInfo, (String, bool)> {
         Mutation::Byte { offset, .. } => *offset,
         Mutation::Truncate { len } => *len,
     };
+    // WAL damage that leaves every fragment length and type intact (a payload byte or one of the four
+    // checksum bytes): the reader knows where the next fragment starts, so exactly the record that
+    // contains the damaged fragment may be skipped and every other record must be applied. Damage to
+    // a length or type byte (or a truncation) can cost the alignment: there any later record may go.
+    let mut strict_wal = false;
+    let mut damaged_batch: Option<usize> = None;
+    if is_wal {
+        if let (Mutation::Byte { offset, .. }, Some(data)) = (&p.mutation, img.files.get(&p.file)) {
+            let frags = log_fragments(&data.0);
+            let in_header_len_or_type = frags.iter().any(|(o, _, _)| *offset >= o + 4 && *offset <= o + 6);
+            let inside_some_fragment = frags.iter().any(|(o, l, _)| *offset >= *o && *offset < o + 7 + l);
+            if !in_header_len_or_type {
+                strict_wal = true;
+                if inside_some_fragment {
+                    damaged_batch = img.wal_batches.iter().position(|(end, _)| *end > *offset);
+                }
+            }
+        }
+    }
     if is_wal {
         let base: Model = img.wal_base.iter().map(|(k, v)| (k.0.clone(), v.0.clone())).collect();
         for k in img.universe.iter() {
             let mut set: Vec<Option<Vec<u8>>> = vec![base.get(&k.0).cloned()];
-            for (end, items) in &img.wal_batches {
-                let mandatory = *end <= damage_at;
+            for (bi, (end, items)) in img.wal_batches.iter().enumerate() {
+                let mandatory = *end <= damage_at || (strict_wal && Some(bi) != damaged_batch);
                 let mut eff: Option<Option<Vec<u8>>> = None;
                 for (ik, iv) in items {
                     if ik == k {
